@@ -227,6 +227,7 @@ class RngSeam:
         self.begin_op([])
 
     def reset_totals(self):
+        self.entropy_seed = 0  # answers to entropy requests are a function of the run, not of the process history
         self.total_draws = 0
         self.total_forced = 0
         self.fired_by_kind = {}
